@@ -44,6 +44,17 @@ class Ctx:
             if b['def_kind'] == 'Fn' and len([x for x in b['blocks'] if not x['cleanup']]) == 1 and \
                     all(x['term']['k'] != 'call' for x in b['blocks']):
                 self.pure.discard(k)
+        # field getters (`fn x(&self) -> &T / Option<&T>`, a few blocks, no local callee): looked through, so that what
+        # is known about the field is known about the getter's result
+        for k in list(self.pure):
+            b = self.B[k]
+            if b['def_kind'] == 'AssocFn' and not b.get('impl_trait') and b['arg_count'] == 1 and \
+                    len([x for x in b['blocks'] if not x['cleanup']]) <= 3 and not self.cg.local_edges.get(k):
+                a = self.T[b['locals'][1]['ty']]
+                r = self.T[b['locals'][0]['ty']]
+                borrows = r['k'] == 'ref' or (r.get('adt') == 'std::option::Option' and '&' in r['s'])
+                if a['k'] == 'ref' and borrows:
+                    self.pure.discard(k)
         self._graphs = {}
         self._roles = {}
         self.by_path = {}
@@ -240,9 +251,11 @@ class Ctx:
             elif ft.get('local') and ft['k'] == 'adt':
                 out['read_side'] = i
                 out['read_side_ty'] = f['ty']
-        for need in ('auto_sync', 'checker', 'write_side', 'read_side'):
+        for need in ('auto_sync', 'write_side', 'read_side'):
             if need not in out:
                 raise RoleError('stacked cache field role %s not found in %s' % (need, path))
+        # the stacked cache may keep its own handle on the checker or consult the read side's: both layouts are fine
+        out.setdefault('checker', None)
         return out
 
     def checker_none_facts(self, entry):
@@ -255,7 +268,8 @@ class Ctx:
         sty = self.T[body['impl_self_ty']].get('adt') if body.get('impl_self_ty') is not None else None
         if sty == self.role('stack_cache'):
             f = self.stack_fields()
-            facts[('var', SYM('fld', obj, 'f%d' % f['checker']))] = 0
+            if f['checker'] is not None:
+                facts[('var', SYM('fld', obj, 'f%d' % f['checker']))] = 0
             rs = SYM('fld', obj, 'f%d' % f['read_side'])
             facts[('var', SYM('fld', rs, 'f%d' % self.readonly_fields()['checker']))] = 0
         elif sty == self.role('readonly_cache'):
@@ -303,7 +317,8 @@ class Ctx:
         if sty == self.role('stack_cache'):
             f = self.stack_fields()
             if checker:
-                facts[('var', SYM('fld', obj, 'f%d' % f['checker']))] = cv[checker]
+                if f['checker'] is not None:
+                    facts[('var', SYM('fld', obj, 'f%d' % f['checker']))] = cv[checker]
                 rs = SYM('fld', obj, 'f%d' % f['read_side'])
                 facts[('var', SYM('fld', rs, 'f%d' % self.readonly_fields()['checker']))] = cv[checker]
             if write_side:
@@ -531,7 +546,7 @@ class Tags:
         self.planner_path = planner
         self.role_errors = {}
         try:
-            self.roles['capacity'] = self._accessor_in(q, pe, 1, 'capacity accessor')
+            self.roles['capacity'] = self._accessor_in(q, pe, 1, 'capacity accessor', exclude=set(self.roles.values()))
         except RoleError as e:
             self.role_errors['capacity'] = str(e)     # only the rules that need this role fail closed
         cand = set()
@@ -560,7 +575,7 @@ class Tags:
             raise RoleError(self.role_errors[role])
         return self.by_role[role]
 
-    def _accessor_in(self, q, edges, argi, what):
+    def _accessor_in(self, q, edges, argi, what, exclude=()):
         names = set()
         for e in edges:
             ev = q.E[e][2]
@@ -574,6 +589,7 @@ class Tags:
                 t = VAL[s]
                 if t[0] == 'sym' and t[1] == 'app' and t[2] in self.impl_paths:
                     names.add(self.impl_paths[t[2]])
+        names -= set(exclude)
         if len(names) != 1:
             raise RoleError('%s: expected exactly one required method, found %s' % (what, sorted(names)))
         return names.pop()
